@@ -79,6 +79,7 @@ Proof.
   destruct (mget b (c_empty c)) as [n|] eqn:En; [|inversion H; auto].
   destruct (Nat.leb (rn_count n (c_bbn c)) 1) eqn:Ec; [inversion H; auto|].
   apply PeanoNat.Nat.leb_gt in Ec.
+  destruct (knode_for w c n); [|inversion H; auto].
   unfold mark_empty in H.
   destruct grace as [g|].
   2:{ simpl in H. inversion H; auto. }
